@@ -232,14 +232,25 @@ def check_after_recycle_repends(ctx, consequence: str):
     ar = ctx.prog.func("step.Step.after_recycle")
     SS = ctx.prog.enum("StepState")
     n = 0
+    # the declaration arguments that are hash ingredients but are not compared by can_recycle: the stored value is
+    # what the getters return, the new value is the parameter
+    same = {"shell": False, "env_overrides": None, "self.uses_shell()": False, "self.get_env_overrides()": {}}
     for st in SS:
         for has_hash in (True, False):
-            fp = finite.feasible_paths(ctx.prog, ar, {}, {"self.get_state()": st, "self.get_hash()": (object() if has_hash else None)})
-            for tr, s in fp:
-                n += 1
-                rep = any(e[0] == "call" and e[1].endswith("mark_step_pending") for e in tr)
-                exp = st == SS.FAILED or (st == SS.SUCCEEDED and not has_hash)
-                ctx.check(rep == exp, ar.fq, f"state={st.name} hash={'yes' if has_hash else 'no'}", f"re-pended={rep}, expected {exp}: {consequence}", "re-pended" if exp else "kept")
+            for changed in (None, "shell", "env_overrides"):
+                bind = {"shell": same["shell"], "env_overrides": same["env_overrides"]}
+                ov = {"self.get_state()": st, "self.get_hash()": (object() if has_hash else None), "self.uses_shell()": same["self.uses_shell()"], "self.get_env_overrides()": same["self.get_env_overrides()"]}
+                if changed == "shell":
+                    bind["shell"] = True
+                elif changed == "env_overrides":
+                    bind["env_overrides"] = {"X": "1"}
+                fp = finite.feasible_paths(ctx.prog, ar, bind, ov)
+                outcomes = {any(e[0] == "call" and e[1].endswith("mark_step_pending") for e in tr) for tr, s in fp}
+                n += len(fp)
+                exp = st == SS.FAILED or (st == SS.SUCCEEDED and (not has_hash or changed is not None))
+                what = f"state={st.name} hash={'yes' if has_hash else 'no'}" + (f" {changed} changed" if changed else "")
+                why = consequence if changed is None else f"a SUCCEEDED step is not hash-checked again by itself, so a new `{changed}` (an ingredient of its hash that can_recycle does not compare) leaves the old output in place: the incremental build differs from a build from scratch"
+                ctx.check(outcomes == {exp}, ar.fq, what, f"re-pended={sorted(outcomes)}, expected {exp}: {why}", "re-pended" if exp else "kept")
     if n == 0:
         raise AnalysisError("Step.after_recycle: no feasible path")
 
